@@ -352,6 +352,8 @@ func runC11(c *Ctx) {
 		}
 	}
 
+	runC11CreatedOwned(c, ent, nil)
+
 	// chown-new
 	for _, num := range []uint32{8, 9, 10} {
 		h := ent.Handlers[num]
